@@ -113,7 +113,8 @@ class Group:
                 self.shared_params = SolverParameters(eps=sp["eps"], r=sp["r"], itersLimit=sp["limit"], evolventDensity=sp["m"], refineSolution=False)
             params = self.shared_params
         return SolverRun(sp["prob"], r=sp["r"], eps=sp["eps"], limit=sp["limit"], m=sp["m"], tag=sp["tag"] + ("/solo" if solo else ""),
-                         listener=sp["listener"], full_snap=True, params=params, refine=sp["refine"])
+                         listener=sp["listener"], full_snap=True, params=params, refine=sp["refine"],
+                         fault=None if sp.get("fault") is None else (sp["fault"][0], type(sp["fault"][1])()))
 
     def get(self, j):
         if j not in self.runs:
@@ -226,6 +227,14 @@ def run(ctx):
             sch.append((j, "solve", 0, 0))
         g.play(sch)
         runs += g.finish(pairs, sch)
+    # one solver's objective is interrupted (KeyboardInterrupt / SystemExit / GeneratorExit raised inside it, contained by its Solve): the
+    # others, running before, in between and afterwards, are not concerned
+    for gi in range(2 if qk else 10):
+        g = Group(rng, 3, "interrupted%d" % gi, lazy=rng.random() < 0.5, share_problem=False)
+        exc = [KeyboardInterrupt, SystemExit, GeneratorExit][gi % 3]
+        g.specs[0]["fault"] = (rng.choice([2, 3, 5]), exc())
+        g.play([(2, "dgi", 2, 0), (1, "solve", 0, 0), (2, "solve", 0, 0), (3, "dgi", 3, 0), (3, "solve", 0, 0)])
+        runs += g.finish(pairs, "interrupted bystander")
     # every solver refines its solution (refineSolution=True): Solutions returned by earlier Solve calls are observed after each later
     # solver's search and refinement
     for gi in range(2 if qk else 12):
